@@ -901,21 +901,30 @@ class SWord:
     def __hash__(self):
         raise Unsupported('hash of a symbolic word')
 
+    def _window(self, a):
+        if len(a) > 2 or any(not isinstance(x, int) and x is not None for x in a):
+            raise Unsupported('startswith/endswith with symbolic positions')
+        lo = a[0] if len(a) > 0 and a[0] is not None else 0
+        hi = a[1] if len(a) > 1 and a[1] is not None else len(self.chars)
+        return SWord(self.chars[slice(lo, hi)])
+
     def startswith(self, s, *a):
-        if a or not isinstance(s, str):
-            raise Unsupported('startswith with positions / non-constant prefix')
-        if len(s) > len(self.chars):
+        if not isinstance(s, str):
+            raise Unsupported('startswith with a non-constant prefix')
+        w = self._window(a) if a else self
+        if len(s) > len(w.chars):
             return False
-        return SWord(self.chars[:len(s)])._eq_str(s)
+        return SWord(w.chars[:len(s)])._eq_str(s)
 
     def endswith(self, s, *a):
-        if a or not isinstance(s, str):
-            raise Unsupported('endswith with positions / non-constant suffix')
-        if len(s) > len(self.chars):
+        if not isinstance(s, str):
+            raise Unsupported('endswith with a non-constant suffix')
+        w = self._window(a) if a else self
+        if len(s) > len(w.chars):
             return False
         if not s:
             return True
-        return SWord(self.chars[len(self.chars) - len(s):])._eq_str(s)
+        return SWord(w.chars[len(w.chars) - len(s):])._eq_str(s)
 
     def __getitem__(self, k):
         if isinstance(k, slice):
